@@ -11,6 +11,14 @@ variable {R : Type} [DecidableEq R]
 
 /-! ## side conditions on `Generated/Cache.lean` (an edited source either still satisfies them or breaks these) -/
 
+/-- `BeakerCacheImpl._get_cache` hands `starttime = Cache.starttime = module._modified_time` to Beaker on every call, with
+    or without a timeout: mako's own back end honours the `starttime` contract (`Backend.honoursStarttime`) -/
+theorem gen_beaker_starttime :
+    beakerAlwaysPassesStarttime = true ∧ beakerStarttimeReachesCalls = true ∧ starttimeIsModuleModifiedTime = true := by
+  decide
+/-- the call site of a block writes what the block returns (/repo 248d875) -/
+theorem gen_block_result_written : blockResultWritten = true := by decide
+
 /-- the translator understood the source the constants below were read from (else `Generated/CacheStatus.lean` does
     not build and says why) -/
 theorem gen_regen_ok : True := MakoModel.Generated.CacheStatus.regen_ok
@@ -231,7 +239,7 @@ theorem run_inv_disabled (P : Params R) (env : Env) (h : Hdr) (arg : Option Expr
 
 theorem run_inv_hit (P : Params R) (env : Env) (h : Hdr) (arg : Option Expr) (site : Bool) (body rest : Items)
     (st : St R) (v : Str) (hc : h.cached = true) (hen : st.enabled P.tid = true)
-    (hs : st.store (backendKey P st h (scope P h env arg)) = some v) :
+    (hs : visible P.be st P.tid (backendKey P st h (scope P h env arg)) = some v) :
     run P env (.inv h arg site body rest) st =
       let st1 := (afterCall P st h (scope P h env arg)).emit
         (.enter P.tid (fname h) (backendKey P st h (scope P h env arg)) (.hit v))
@@ -242,7 +250,7 @@ theorem run_inv_hit (P : Params R) (env : Env) (h : Hdr) (arg : Option Expr) (si
 
 theorem run_inv_miss (P : Params R) (env : Env) (h : Hdr) (arg : Option Expr) (site : Bool) (body rest : Items)
     (st : St R) (hc : h.cached = true) (hen : st.enabled P.tid = true)
-    (hs : st.store (backendKey P st h (scope P h env arg)) = none) :
+    (hs : visible P.be st P.tid (backendKey P st h (scope P h env arg)) = none) :
     run P env (.inv h arg site body rest) st =
       let env' := scope P h env arg
       let K := backendKey P st h env'
@@ -261,9 +269,9 @@ theorem run_inv_miss (P : Params R) (env : Env) (h : Hdr) (arg : Option Expr) (s
 structure Preserved (P : Params R) (T : Items) (I : St R → Prop) : Prop where
   tick : ∀ st t, I st → I (st.emit (.tick t))
   bypass : ∀ st h, h ∈ hdrs T → I st → st.enabled P.tid = false → I (st.emit (.bypass P.tid (fname h)))
-  hit : ∀ st h env' v, h ∈ hdrs T → I st → st.enabled P.tid = true → st.store (backendKey P st h env') = some v →
+  hit : ∀ st h env' v, h ∈ hdrs T → I st → st.enabled P.tid = true → visible P.be st P.tid (backendKey P st h env') = some v →
     I ((afterCall P st h env').emit (.enter P.tid (fname h) (backendKey P st h env') (.hit v)))
-  miss : ∀ st h env', h ∈ hdrs T → I st → st.enabled P.tid = true → st.store (backendKey P st h env') = none →
+  miss : ∀ st h env', h ∈ hdrs T → I st → st.enabled P.tid = true → visible P.be st P.tid (backendKey P st h env') = none →
     I ((afterCall P st h env').emit (.enter P.tid (fname h) (backendKey P st h env') .miss))
   created : ∀ st0 h body env' r key, h ∈ hdrs T → I (run P env' body st0).2 →
     I (((run P env' body st0).2.put (cid P.tm, r, key) (finish h (run P env' body st0).1)).emit
@@ -286,7 +294,7 @@ theorem run_preserves (P : Params R) (T : Items) (I : St R → Prop) (hp : Prese
     have hsr : ∀ x, x ∈ hdrs rest → x ∈ hdrs T := fun x hx => hsub x (by simp [hdrs, hx])
     by_cases hc : h.cached = true
     · by_cases hen : st.enabled P.tid = true
-      · cases hs : st.store (backendKey P st h (scope P h env arg)) with
+      · cases hs : visible P.be st P.tid (backendKey P st h (scope P h env arg)) with
         | some v =>
           rw [run_inv_hit P env h arg site body rest st v hc hen hs]
           exact ihr env _ hsr (hp.hit st h _ v hh hi hen hs)
